@@ -177,6 +177,9 @@ func genRoaring(repo string) (string, error) {
 	if new(big.Int).Rem(bound, step).Sign() != 0 {
 		return "", fmt.Errorf("bitmapContainer.setZero: bound %s is not a multiple of the step %s (would index out of range)", bound, step)
 	}
+	if bound.Cmp(bmpWords[0]) != 0 {
+		return "", fmt.Errorf("bitmapContainer.setZero clears %s words but the bitmap container has %s (the model's fresh zeroed bitmap would be wrong)", bound, bmpWords[0])
+	}
 	// ---- the key shift: every `>> K` / `<< K` applied to num / high in the RoaringBitmap methods and Value must agree
 	shifts := map[int64]int{}
 	for _, fn := range []string{"RoaringBitmap.Add", "RoaringBitmap.Remove", "RoaringBitmap.Contains", "RoaringBitmap.Range", "RoaringBitmap.All", "RoaringBitmapIter.Value"} {
